@@ -30,6 +30,7 @@ func runC02(c *Ctx) {
 	c01Dual(c)
 	// the userspace scan step equals the same first-match reference the kernel step is compared with
 	c02GoScan(c)
+	scanIsStateless(c, "SCAN", "control", "RoutingMatcher.Match", []string{"goodSubrule", "badRule", "must"})
 }
 
 func c02GoScan(c *Ctx) {
